@@ -477,7 +477,7 @@ pub fn run_case(c: &Case) -> Result<Obs, Fail> {
     });
     match r {
         Ok(x) => x,
-        Err(p) => Err((format!("c05:{}", p.fingerprint()), format!("panic at {}:{}: {}", p.file, p.line, p.msg))),
+        Err(p) => Err((format!("c05:{}", p.fingerprint().lines().next().unwrap_or("")), format!("panic at {}:{}: {}", p.file, p.line, p.msg))),
     }
 }
 
@@ -1224,7 +1224,7 @@ pub fn run(ctx: &Ctx) -> ! {
                         continue;
                     }
                     Err(p) => {
-                        st.violate((4 << 40) + idx * 100000 + n, format!("c05:{}", p.fingerprint()), format!("panic {}:{} {}", p.file, p.line, p.msg), || case.to_json());
+                        st.violate((4 << 40) + idx * 100000 + n, format!("c05:{}", p.fingerprint().lines().next().unwrap_or("")), format!("panic {}:{} {}", p.file, p.line, p.msg), || case.to_json());
                         continue;
                     }
                 };
